@@ -9,7 +9,7 @@ Definition has {A} (o : option A) : bool := match o with Some _ => true | None =
 Section Missing.
   Context {T : Type} (OP : ops T).
   Variable pfwd pinv : T * T -> option (T * T).
-  Variable fac : cu -> T.
+  Variable fac : cu -> T * T.
   Variable geographic : bool.
   Variable crs_units : cu.
   Local Notation convert := (convert_units OP pfwd pinv fac geographic crs_units).
